@@ -254,7 +254,7 @@ Proof.
   set (s0 := sum_words s4 + sum_words d4 + 17 + ulen + (sp + dp + ulen + sum_words payload)).
   assert (Hs0 : 0 < s0 /\ s0 < 4294967296) by (subst s0; lia).
   destruct (csum_finish_total s0) as [uc0 [Huc0 Huc16]]; try tauto. rewrite Huc0. cbn [rbind].
-  set (uc := if uc0 =? 0 then match v with Defective => 0 | Repaired => 65535 end else uc0).
+  set (uc := if uc0 =? 0 then match v with Defective => 0 | _ => 65535 end else uc0).
   assert (Huc : uc < 65536 /\ (uc = uc0 \/ (uc0 = 0 /\ (uc = 65535 \/ uc = 0)))).
   { subst uc. destruct (N.eqb_spec uc0 0); [destruct v|]; split; try lia; auto. }
   destruct (csum_verifies s0 uc0 uc (proj1 Hs0) (proj2 Hs0) Huc0 (proj2 Huc)) as [_ Hv].
@@ -511,6 +511,32 @@ Qed.
 Lemma wf_pkt_len : forall hdr its tl, length hdr = 240%nat -> (length (wf_pkt hdr its tl) <? opt_start)%nat = false.
 Proof. intros. unfold wf_pkt, opt_start. rewrite app_length. apply Nat.ltb_ge. lia. Qed.
 
+Lemma frag_at_enc : forall its f i tl, Forall item_ok its ->
+  frag_at (length its + f) i (enc its ++ tl) = frag_at f (i + length (enc its)) tl.
+Proof.
+  induction its as [|it r IH]; intros f i tl Hok.
+  - cbn [length enc concat map app plus]. rewrite Nat.add_0_r. reflexivity.
+  - inversion Hok as [|? ? Hit Hr']; subst. rewrite enc_cons, <- app_assoc. cbn [length plus].
+    destruct it as [|c d].
+    + cbn [enc_item app frag_at length]. change (0 =? 0) with true. cbn iota. rewrite IH by assumption. f_equal; lia.
+    + destruct Hit as [H0 [H255 Hlen]]. cbn [enc_item app frag_at length].
+      destruct (N.eqb_spec c 0); [contradiction|]. destruct (N.eqb_spec c 255); [contradiction|].
+      rewrite to_nat_blen, ltb_app_false, skipn_exact by reflexivity.
+      replace (i + S (S (length (d ++ enc r))))%nat with ((i + 2 + length d) + length (enc r))%nat by (rewrite app_length; lia).
+      apply IH; assumption.
+Qed.
+Lemma cut_fragment_wf : forall hdr its tl, length hdr = 240%nat -> Forall item_ok its -> wf_tail tl ->
+  cut_fragment (wf_pkt hdr its tl) = wf_pkt hdr its tl.
+Proof.
+  intros hdr its tl Lh Hok Htl. unfold cut_fragment.
+  assert (Hl : (length (wf_pkt hdr its tl) <? 240)%nat = false) by (apply (wf_pkt_len hdr its tl Lh)).
+  rewrite Hl. unfold wf_pkt at 2. rewrite skipn_exact by assumption.
+  pose proof (enc_length_ge its) as Hge.
+  set (P := wf_pkt hdr its tl).
+  replace (S (length P)) with (length its + S (length P - length its))%nat by (subst P; unfold wf_pkt; rewrite !app_length; lia).
+  rewrite frag_at_enc by assumption. destruct Htl as [->|[trail ->]]; reflexivity.
+Qed.
+
 Definition replaced82 (hdr : bytes) (its : list item) (o82 tl : bytes) : bytes :=
   hdr ++ enc (drop_code 82 its) ++ o82 ++ tl.
 
@@ -522,7 +548,7 @@ Lemma insert_option82_repaired : forall hdr its tl o82 pol, length hdr = 240%nat
       | Keep => if existsb (is_code 82) its then wf_pkt hdr its tl else replaced82 hdr its o82 tl
       end).
 Proof.
-  intros hdr its tl o82 pol Lh Hok Htl. unfold insert_option82.
+  intros hdr its tl o82 pol Lh Hok Htl. unfold insert_option82. rewrite cut_fragment_wf by assumption. cbn zeta.
   rewrite wf_pkt_len, scan_wf by assumption. cbn [rbind]. rewrite end_idx_eq by assumption.
   assert (Erm : remove_ranges (wf_pkt hdr its tl) (ranges_of 82 240 its) = wf_pkt hdr (drop_code 82 its) tl).
   { unfold wf_pkt. rewrite <- Lh. apply remove_ranges_enc. }
@@ -1198,14 +1224,14 @@ Proof.
   repeat split; try exact Hv; destruct (N.eqb_spec c 0); lia.
 Qed.
 
-Lemma wrap_ip_udp_ok : forall payload src dst s4 d4,
+Lemma wrap_ip_udp_ok : forall v payload src dst s4 d4,
   to4 src = Some s4 -> to4 dst = Some d4 -> ip_ok src -> ip_ok dst -> bytes_ok payload -> blen payload <= 65507 ->
-  exists f, wrap_ip_udp payload src dst = Ok f /\ frame4_ok f payload /\ frame4_fields f s4 d4 67 68 /\
+  exists f, wrap_ip_udp v payload src dst = Ok f /\ frame4_ok f payload /\ frame4_fields f s4 d4 67 68 /\
             firstn 2 (skipn 26 f) <> [0; 0].
 Proof.
-  intros payload src dst s4 d4 Hs Hd Os Od Bp Hl.
+  intros v payload src dst s4 d4 Hs Hd Os Od Bp Hl.
   destruct (to4_some _ _ Hs Os) as [Ls Bs]. destruct (to4_some _ _ Hd Od) as [Ld Bd].
-  unfold wrap_ip_udp. rewrite (field4_id _ _ Hs), (field4_id _ _ Hd), Hs, Hd.
+  unfold wrap_ip_udp. rewrite Hs, Hd.
   set (ulen := 8 + blen payload). set (total := 20 + ulen).
   destruct (header_csum_exists total s4 d4 Ls Ld Bs Bd) as [hc Hhc]. rewrite Hhc. cbn [rbind].
   destruct (ip4_header_verifies total s4 d4 hc hc Ls Ld Bs Bd Hhc eq_refl) as [Hhc16 Hhv].
@@ -1408,12 +1434,16 @@ Qed.
 
 Definition resolved_opts (lease : N) (mask : bytes) (sid router : option bytes) (dns : list (option bytes)) (rt : bytes)
            (routes : list (N * option bytes * option bytes)) (extra : list (N * bytes)) : list (N * bytes) :=
-  [(51, put32 lease); (1, mask)]
-  ++ (match sid with Some _ => [(54, opt_bytes (to4 sid))] | None => [] end)
-  ++ (match router with Some _ => [(3, opt_bytes (to4 router))] | None => [] end)
-  ++ (match dns with [] => [] | _ => [(6, dns_data dns)] end)
+  [(51, put32 lease)] ++ nz 1 mask
+  ++ (match sid with Some _ => nz 54 (opt_bytes (to4 sid)) | None => [] end)
+  ++ (match router with Some _ => nz 3 (opt_bytes (to4 router)) | None => [] end)
+  ++ (match dns with [] => [] | _ => nz 6 (dns_data dns) end)
   ++ (match routes with [] => [] | _ => [(121, rt)] end)
   ++ extra.
+Lemma nz_Forall : forall (P : N * bytes -> Prop) c d, Forall P [(c, d)] -> Forall P (nz c d).
+Proof. intros P c d H. destruct d; [constructor|exact H]. Qed.
+Lemma nz_nonempty : forall c d o, In o (nz c d) -> o = (c, d) /\ d <> [].
+Proof. intros c d o H. destruct d; [contradiction|]. cbn [nz In] in H. destruct H as [<-|[]]. split; [reflexivity|discriminate]. Qed.
 Definition std_codes : list N := [53; 51; 1; 54; 3; 6; 121].
 Definition raw_ok (o : N * bytes) : Prop := raw_option_valid o = true /\ fst o < 256 /\ bytes_ok (snd o).
 
@@ -1426,6 +1456,12 @@ Proof.
   intros c0 Hc. unfold has_code, std_codes in *. cbn [fst In] in *. apply N.eqb_neq.
   repeat (destruct Hc as [<-|Hc]; [congruence|]). contradiction.
 Qed.
+Lemma piece_bound : forall c k (l : list (N * bytes)), (forall o, In o l -> fst o = k) -> (length l <= 1)%nat ->
+  (length (filter (has_code c) l) <= if (c =? k)%N then 1 else 0)%nat.
+Proof.
+  intros c k l Hk Hl. destruct l as [|o [|o2 r]]; [destruct (c =? k); cbn; lia| |cbn in Hl; lia].
+  cbn [filter]. unfold has_code. rewrite (Hk o (or_introl eq_refl)). rewrite N.eqb_sym. destruct (c =? k); cbn [length]; lia.
+Qed.
 Lemma std_once : forall mt lease mask sid router dns rt routes extra c, Forall raw_ok extra -> In c std_codes ->
   Nat.le (length (filter (has_code c) ((53, [mt mod 256]) :: resolved_opts lease mask sid router dns rt routes extra))) 1.
 Proof.
@@ -1433,10 +1469,22 @@ Proof.
   assert (Fe : filter (has_code c) extra = []).
   { induction extra as [|o r IH]; [reflexivity|]. inversion Hex as [|? ? [Hv _] Hr]; subst. cbn [filter].
     rewrite (proj1 (proj2 (raw_ok_code o Hv)) c Hc). apply IH. assumption. }
-  unfold resolved_opts. change ((53, [mt mod 256]) :: ?x) with ([(53, [mt mod 256])] ++ x). rewrite !filter_app, Fe, app_nil_r.
-  unfold std_codes in Hc. cbn [In] in Hc.
-  destruct sid; destruct router; destruct dns; destruct routes;
-    repeat (destruct Hc as [<-|Hc]; [unfold has_code; cbn; lia|]); contradiction.
+  unfold resolved_opts. change ((53, [mt mod 256]) :: ?x) with ([(53, [mt mod 256])] ++ x). rewrite !filter_app, !app_length, Fe.
+  assert (NZk : forall k d, (forall o, In o (nz k d) -> fst o = k) /\ (length (nz k d) <= 1)%nat)
+    by (intros k d; destruct d; cbn [nz In length fst]; split; try lia; intros o [<-|[]]; reflexivity).
+  pose proof (piece_bound c 53 [(53, [mt mod 256])] ltac:(intros o [<-|[]]; reflexivity) ltac:(cbn; lia)) as B53.
+  pose proof (piece_bound c 51 [(51, put32 lease)] ltac:(intros o [<-|[]]; reflexivity) ltac:(cbn; lia)) as B51.
+  pose proof (piece_bound c 1 (nz 1 mask) (proj1 (NZk 1 mask)) (proj2 (NZk 1 mask))) as B1.
+  assert (B54 : (length (filter (has_code c) match sid with Some _ => nz 54%N (opt_bytes (to4 sid)) | None => [] end) <= if (c =? 54)%N then 1 else 0)%nat)
+    by (destruct sid; [apply piece_bound; apply NZk|destruct (c =? 54); cbn; lia]).
+  assert (B3 : (length (filter (has_code c) match router with Some _ => nz 3%N (opt_bytes (to4 router)) | None => [] end) <= if (c =? 3)%N then 1 else 0)%nat)
+    by (destruct router; [apply piece_bound; apply NZk|destruct (c =? 3); cbn; lia]).
+  assert (B6 : (length (filter (has_code c) match dns with [] => [] | _ => nz 6%N (dns_data dns) end) <= if (c =? 6)%N then 1 else 0)%nat)
+    by (destruct dns; [destruct (c =? 6); cbn; lia|apply piece_bound; apply NZk]).
+  assert (B121 : (length (filter (has_code c) match routes with [] => [] | _ => [(121%N, rt)] end) <= if (c =? 121)%N then 1 else 0)%nat)
+    by (destruct routes; [destruct (c =? 121); cbn; lia|apply piece_bound; [intros o [<-|[]]; reflexivity|cbn; lia]]).
+  unfold std_codes in Hc. cbn [In] in Hc. cbn [length] in *.
+  repeat (destruct Hc as [<-|Hc]; [cbn [N.eqb Pos.eqb] in *; unfold bytes in *; cbn [length] in *; lia|]). contradiction.
 Qed.
 
 Definition bcast : bytes := [255; 255; 255; 255].
@@ -1498,10 +1546,9 @@ Proof.
     destruct (T 6 (dns_data dns)) as [a5 b5]; try lia; [assumption|].
     destruct (T 121 rt) as [a6 b6]; try lia; [assumption|].
     split; repeat (apply Forall_app; split); try assumption;
-      first [ solve [constructor; [inversion a1; assumption|assumption]]
-            | solve [constructor; [inversion b1; assumption|assumption]]
-            | solve [destruct sid; [assumption|constructor]] | solve [destruct router; [assumption|constructor]]
-            | solve [destruct dns; [constructor|assumption]] | solve [destruct routes; [constructor|assumption]] ]. }
+      first [ solve [apply nz_Forall; assumption]
+            | solve [destruct sid; [apply nz_Forall; assumption|constructor]] | solve [destruct router; [apply nz_Forall; assumption|constructor]]
+            | solve [destruct dns; [constructor|apply nz_Forall; assumption]] | solve [destruct routes; [constructor|assumption]] ]. }
   destruct Hcodes as [Hco Hbo].
   destruct (reply_decodes xid ci yip src hw mt opts Hx Hhw Hco) as [payload [view [Ep [Ev [V1 [V2 [V3 [V4 [V5 [V6 [V7 [V8 V9]]]]]]]]]]]].
   exists rt, payload, view.
@@ -1539,15 +1586,16 @@ Proof.
       assert (H4 : forall ip, (length (opt_bytes (to4 ip)) <= 255)%nat).
       { intros ip. destruct (to4 ip) eqn:E4; cbn [opt_bytes]; [rewrite (to4_length _ _ E4)|cbn]; lia. }
       repeat (apply Forall_app; split); try exact Hex;
-        first [ solve [constructor; [cbn [snd length put32]; lia|constructor; [exact L1|constructor]]]
-              | solve [destruct sid; [constructor; [apply H4|constructor]|constructor]]
-              | solve [destruct router; [constructor; [apply H4|constructor]|constructor]]
-              | solve [destruct dns; [constructor|constructor; [exact L2|constructor]]]
+        first [ solve [constructor; [cbn [snd length put32]; lia|constructor]]
+              | solve [apply nz_Forall; constructor; [exact L1|constructor]]
+              | solve [destruct sid; [apply nz_Forall; constructor; [apply H4|constructor]|constructor]]
+              | solve [destruct router; [apply nz_Forall; constructor; [apply H4|constructor]|constructor]]
+              | solve [destruct dns; [constructor|apply nz_Forall; constructor; [exact L2|constructor]]]
               | solve [destruct routes; [constructor|constructor; [exact L3|constructor]]] ].
 Qed.
 
 Definition pool_opts (lease : N) (mask g4 : bytes) (dns : list (option bytes)) (extra : list (N * bytes)) : list (N * bytes) :=
-  [(54, g4); (51, put32 lease); (1, mask); (3, g4)] ++ (match dns with [] => [] | _ => [(6, dns_data dns)] end) ++ extra.
+  nz 54 g4 ++ [(51, put32 lease)] ++ nz 1 mask ++ nz 3 g4 ++ (match dns with [] => [] | _ => nz 6 (dns_data dns) end) ++ extra.
 
 Lemma dns_data_bytes : forall dns, Forall ip_ok dns -> bytes_ok (dns_data dns).
 Proof.
@@ -1582,8 +1630,10 @@ Proof.
     destruct (T 54 g4) as [a1 b1]; try lia; [assumption|]. destruct (T 51 (put32 lease)) as [a2 b2]; try lia; [apply put32_bytes|].
     destruct (T 1 mask) as [a3 b3]; try lia; [assumption|]. destruct (T 3 g4) as [a4 b4]; try lia; [assumption|].
     destruct (T 6 (dns_data dns)) as [a5 b5]; try lia; [assumption|].
+    assert (S1 : forall (P : N * bytes -> Prop) o, P o -> Forall P [o]) by (intros; constructor; [assumption|constructor]).
     split; repeat (apply Forall_app; split); try assumption;
-      first [ solve [repeat (constructor; [assumption|]); constructor] | solve [destruct dns; [constructor|constructor; [assumption|constructor]]] ]. }
+      first [ solve [apply nz_Forall; apply S1; assumption] | solve [apply S1; assumption]
+            | solve [destruct dns; [constructor|apply nz_Forall; apply S1; assumption]] ]. }
   destruct Hcodes as [Hco Hbo].
   destruct (reply_decodes xid ci ip gateway hw mt opts Hx Hhw Hco) as [payload [view [Ep [Ev [V1 [V2 [V3 [V4 [V5 [V6 [V7 [V8 V9]]]]]]]]]]]].
   exists payload, view.
@@ -2226,4 +2276,101 @@ Proof.
     try (destruct Hia as [Hi [Hp [Hv La]]]; apply parse_iana_payload; try assumption; lia);
     try (destruct Hpd as (Hi' & Hp' & Hv' & La' & Ho); destruct (N.leb_spec ones 128); [|lia]; apply parse_iapd_payload; try assumption; lia);
     try (apply Edq; discriminate).
+Qed.
+
+(* ================================================================== findings of audit round 2, repaired behaviour *)
+(* (c) WrapIPUDP never panics (and the fold loop never runs out of fuel), whatever the addresses *)
+Lemma csum_finish_ok : forall s, exists c, csum_finish s = Ok c.
+Proof.
+  intros s. unfold csum_finish, u32n. set (m := s mod 4294967296). assert (Hm : m < 4294967296) by (subst m; lia).
+  destruct (N.eq_dec m 0) as [->|Hz]; [eexists; reflexivity|].
+  destruct (fold_loop_spec m ltac:(lia) Hm) as [r [Hr _]]. rewrite Hr. eexists. reflexivity.
+Qed.
+Lemma wrap_never_crashes : forall payload src dst, exists f, wrap_ip_udp Repaired payload src dst = Ok f.
+Proof.
+  intros. unfold wrap_ip_udp. destruct (to4 src) as [s4|]; [|eexists; reflexivity]. destruct (to4 dst) as [d4|]; [|eexists; reflexivity].
+  destruct (csum_finish_ok (sum_words (ip4_header (20 + (8 + blen payload)) s4 d4 0))) as [hc ->]. cbn [rbind].
+  match goal with |- context [csum_finish ?x] => destruct (csum_finish_ok x) as [c ->] end. cbn [rbind]. eexists. reflexivity.
+Qed.
+
+(* (a) after the fragment cut every message of at least 240 bytes is decodable *)
+Lemma frag_cut : forall fuel l i, bytes_ok l -> (length l < fuel)%nat ->
+  match frag_at fuel i l with
+  | Some j => exists its, (i <= j)%nat /\ (j - i <= length l)%nat /\ firstn (j - i) l = enc its /\ Forall item_ok its
+  | None => exists its tl, l = enc its ++ tl /\ Forall item_ok its /\ wf_tail tl
+  end.
+Proof.
+  induction fuel as [|f IH]; intros l i Hb Hf; [lia|]. cbn [frag_at]. destruct l as [|c r].
+  - exists [], []. repeat split; [constructor|left; reflexivity].
+  - inversion Hb as [|? ? Hc Hb1]; subst. cbn [length] in Hf. destruct (N.eqb_spec c 0) as [->|E0].
+    + specialize (IH r (S i) Hb1 ltac:(lia)). destruct (frag_at f (S i) r) as [j|].
+      * destruct IH as [its [Hij [Hl [Hf1 Hok]]]]. exists (Pad :: its). split; [lia|]. split; [cbn [length]; lia|].
+        replace (j - i)%nat with (S (j - S i)) by lia. cbn [firstn]. rewrite Hf1, enc_cons. split; [reflexivity|constructor; [exact I|assumption]].
+      * destruct IH as [its [tl [E [Hok Ht]]]]. exists (Pad :: its), tl. rewrite enc_cons, E. split; [reflexivity|]. split; [constructor; [exact I|assumption]|assumption].
+    + destruct (N.eqb_spec c 255) as [->|E255].
+      * exists [], (255 :: r). split; [reflexivity|]. split; [constructor|right; eexists; reflexivity].
+      * destruct r as [|n r2].
+        { exists []. rewrite Nat.sub_diag. repeat split; try lia. constructor. }
+        destruct (Nat.ltb_spec (length r2) (N.to_nat n)) as [Hlt|Hge].
+        { exists []. rewrite Nat.sub_diag. repeat split; try lia. constructor. }
+        inversion Hb1 as [|? ? Hn Hb2]; subst. unfold byte in Hn.
+        assert (Hb3 : bytes_ok (skipn (N.to_nat n) r2)) by (apply skipn_bytes; assumption).
+        assert (Lf : length (firstn (N.to_nat n) r2) = N.to_nat n) by (rewrite firstn_length; lia).
+        assert (Eit : enc_item (Opt c (firstn (N.to_nat n) r2)) = c :: n :: firstn (N.to_nat n) r2)
+          by (cbn [enc_item]; unfold blen; rewrite Lf, N2Nat.id; reflexivity).
+        assert (Oit : item_ok (Opt c (firstn (N.to_nat n) r2))) by (cbn [item_ok]; repeat split; try assumption; lia).
+        specialize (IH (skipn (N.to_nat n) r2) (i + 2 + N.to_nat n)%nat Hb3 ltac:(cbn [length] in Hf; rewrite skipn_length; lia)).
+        destruct (frag_at f (i + 2 + N.to_nat n) (skipn (N.to_nat n) r2)) as [j|].
+        -- destruct IH as [its [Hij [Hl [Hf1 Hok]]]]. rewrite skipn_length in Hl. exists (Opt c (firstn (N.to_nat n) r2) :: its).
+           split; [lia|]. split; [cbn [length]; lia|]. split; [|constructor; assumption].
+           replace (j - i)%nat with (S (S (N.to_nat n + (j - (i + 2 + N.to_nat n))))) by lia. cbn [firstn].
+           rewrite enc_cons, Eit. cbn [app]. do 2 f_equal.
+           rewrite <- (firstn_skipn (N.to_nat n) r2) at 1. rewrite firstn_app, Lf.
+           rewrite firstn_all2 by (rewrite Lf; lia). f_equal.
+           replace (N.to_nat n + (j - (i + 2 + N.to_nat n)) - N.to_nat n)%nat with (j - (i + 2 + N.to_nat n))%nat by lia. exact Hf1.
+        -- destruct IH as [its [tl [E [Hok Ht]]]]. exists (Opt c (firstn (N.to_nat n) r2) :: its), tl.
+           rewrite enc_cons, Eit. cbn [app]. split; [|split; [constructor; assumption|assumption]].
+           do 2 f_equal. rewrite <- app_assoc, <- E. symmetry. apply firstn_skipn.
+Qed.
+Lemma cut_fragment_is_wf : forall pkt, bytes_ok pkt -> (240 <= length pkt)%nat ->
+  exists its tl, cut_fragment pkt = wf_pkt (firstn 240 pkt) its tl /\ Forall item_ok its /\ wf_tail tl.
+Proof.
+  intros pkt Hb Hl. unfold cut_fragment. destruct (Nat.ltb_spec (length pkt) 240); [lia|].
+  pose proof (frag_cut (S (length pkt)) (skipn 240 pkt) 240 (skipn_bytes _ _ Hb) ltac:(rewrite skipn_length; lia)) as HF.
+  destruct (frag_at (S (length pkt)) 240 (skipn 240 pkt)) as [j|].
+  - destruct HF as [its [Hij [Hjl [Hf Hok]]]]. exists its, []. split; [|split; [assumption|left; reflexivity]].
+    unfold wf_pkt. rewrite app_nil_r, <- Hf. rewrite <- (firstn_skipn 240 pkt) at 1. rewrite firstn_app.
+    rewrite firstn_length. replace (Nat.min 240 (length pkt)) with 240%nat by lia.
+    rewrite firstn_firstn. replace (Nat.min j 240) with 240%nat by lia. reflexivity.
+  - destruct HF as [its [tl [E [Hok Ht]]]]. exists its, tl. split; [|split; assumption]. unfold wf_pkt. rewrite <- E. symmetry. apply firstn_skipn.
+Qed.
+Lemma opt82_replace_any_message : forall pkt d, bytes_ok pkt -> (240 <= length pkt)%nat -> (length d <= 255)%nat ->
+  exists out opts e, insert_option82 Repaired pkt (82 :: blen d :: d) Replace = Ok out /\
+    firstn 240 out = firstn 240 pkt /\ ref_options out = (opts ++ [(82, d)], e) /\ e <> Truncated /\
+    filter (has_code 82) opts = [].
+Proof.
+  intros pkt d Hb Hl Hd. destruct (cut_fragment_is_wf pkt Hb Hl) as [its [tl [Ec [Hok Ht]]]].
+  assert (Lh : length (firstn 240 pkt) = 240%nat) by (rewrite firstn_length; lia).
+  destruct (opt82_replace_faithful (firstn 240 pkt) its tl d Lh Hok Ht Hd) as [out [Eo [Eh Er]]].
+  exists out, (filter (not_code 82) (opts_of its)), (tail_end tl).
+  split.
+  - unfold insert_option82 in *. rewrite cut_fragment_wf in Eo by assumption. rewrite Ec. exact Eo.
+  - split; [exact Eh|]. split; [exact Er|]. split; [destruct Ht as [->|[t ->]]; discriminate|apply filter_not_has].
+Qed.
+
+(* (b) no address-valued option of zero length in the intended reply *)
+Lemma resolved_addr_options_nonempty : forall lease mask sid router dns rt routes extra o, Forall raw_ok extra ->
+  In o (resolved_opts lease mask sid router dns rt routes extra) -> In (fst o) [1; 3; 6; 54] -> snd o <> [].
+Proof.
+  intros lease mask sid router dns rt routes extra o Hex Hin Hc. unfold resolved_opts in Hin.
+  repeat (apply in_app_or in Hin; destruct Hin as [Hin|Hin]).
+  - destruct Hin as [<-|[]]. cbn [fst In] in Hc. repeat (destruct Hc as [Hc|Hc]; [discriminate|]). contradiction.
+  - apply nz_nonempty in Hin. destruct Hin as [-> H]. exact H.
+  - destruct sid; [|contradiction]. apply nz_nonempty in Hin. destruct Hin as [-> H]. exact H.
+  - destruct router; [|contradiction]. apply nz_nonempty in Hin. destruct Hin as [-> H]. exact H.
+  - destruct dns; [contradiction|]. apply nz_nonempty in Hin. destruct Hin as [-> H]. exact H.
+  - destruct routes; [contradiction|]. destruct Hin as [<-|[]]. cbn [fst In] in Hc. repeat (destruct Hc as [Hc|Hc]; [discriminate|]). contradiction.
+  - exfalso. pose proof (proj1 (Forall_forall _ _) Hex o Hin) as [Hv _]. destruct (raw_ok_code o Hv) as [_ [Hs _]].
+    assert (Hstd : In (fst o) std_codes) by (unfold std_codes; cbn [In] in *; tauto).
+    specialize (Hs (fst o) Hstd). unfold has_code in Hs. rewrite N.eqb_refl in Hs. discriminate.
 Qed.
